@@ -384,7 +384,7 @@ impl Check for C09 {
     fn runs(&self, tier: Tier) -> u64 {
         match tier {
             Tier::Quick => 3000,
-            Tier::Thorough => 40_000,
+            Tier::Thorough => 15_000,
         }
     }
     fn generate(&self, run_seed: u64, _index: u64, tier: Tier) -> Case {
